@@ -19,10 +19,11 @@ from pytenet.mpo import MPO
 ID = 'C05'
 LEVEL = 'model_checking'
 RULE = ('all ordered lists (with repetition) of up to K chains from the complete chain menu for lattice length L; a chain is '
-        '(start site, word over the letter alphabet incl. the identity id, coefficient in {1,-1,2,1/2,0}); three charge modes; '
+        '(start site, word over the letter alphabet incl. the identity id, coefficient in {1,-1,2,1/2,0,2^-27}); three charge modes; '
         'non-trivial = at least two chains with non-zero coefficient, or a single chain with coefficient != 1')
 BUDGET = {'quick': 400, 'thorough': 3600}
-COEFFS = [1.0, -1.0, 2.0, 0.5, 0.0]
+TINY = 2.0 ** -27     # non-zero, exactly representable, below the default absolute tolerance of np.isclose
+COEFFS = [1.0, -1.0, 2.0, 0.5, 0.0, TINY]
 
 
 def words(L, letters):
